@@ -159,8 +159,8 @@ impl Property for C06 {
     }
     fn runs(&self, tier: Tier) -> u64 {
         match tier {
-            Tier::Quick => 400,
-            Tier::Thorough => 8000,
+            Tier::Quick => 1500,
+            Tier::Thorough => 30000,
         }
     }
     fn rule(&self) -> &'static str {
